@@ -68,6 +68,11 @@ def initial_cases(tier, seed):
             cases.append({"kind": "eval", "ev": ev, "n": n, "seed": seed})
     for n in [1999, 2000, 2001, 4001]:
         cases.append({"kind": "eval", "ev": "Kernel", "n": n, "seed": seed})
+    # native baselines on the EDGES of the admissible feature domain (uniform-gas limit s^2 -> 0, single-orbital limit
+    # alpha -> 0, huge gradients / alpha): these regimes have their own branches (series expansions, clamps)
+    for name in sorted(set(MULS) | set(ADDS)):
+        for nspin in (1, 2):
+            cases.append({"kind": "baseline-edge", "base": name, "nspin": nspin, "seed": seed})
     # dedupe
     seen, out = set(), []
     for c in cases:
@@ -326,7 +331,73 @@ def run_eval(case):
     return {"fail": fails, "evals": 6 + 4 * n1, "outcome": [float("%.8e" % r0.sum()), n]}
 
 
+def run_baseline_edge(case):
+    from ciderpress.dft.baselines import BASELINE_CODES
+
+    name, nspin = case["base"], case["nspin"]
+    fn = BASELINE_CODES.get(name)
+    ck = "base=%s;nspin=%d" % (name, nspin)
+    if fn is None:
+        return {"fail": [], "evals": 0, "outcome": [ck, "no native function"]}
+    rho = [1e-6, 0.3, 50.0]
+    p = [0.0, 1e-12, 1e-9, 3e-8, 1e-6, 1e-3, 0.4, 30.0, 1e4]
+    al = [0.0, 1e-9, 1e-3, 1.0, 50.0, 1e4]
+    pts = np.array(list(itertools.product(rho, p, al))).T  # (3, n)
+    n = pts.shape[1]
+    X = np.zeros((nspin, 5, n))
+    X[:, :3] = pts
+    X[:, 3] = 0.2
+    X[:, 4] = 1.2
+    if nspin == 2:
+        X[1, :3] = pts[:, np.roll(np.arange(n), 11)]
+    fails = []
+    try:
+        e0, d0 = fn(X.copy())
+    except Exception as ex:
+        return {"fail": [{"key": "cannot-evaluate;baseline-edge;%s;%s" % (ck, type(ex).__name__), "msg": "baseline raised %s: %s" % (type(ex).__name__, str(ex)[:150])}], "evals": 1, "outcome": "raised"}
+    e0 = np.asarray(e0, float)
+    d0 = np.asarray(d0, float)
+    evals = 1
+    if not (np.all(np.isfinite(e0)) and np.all(np.isfinite(d0))):
+        bad = np.argwhere(~np.isfinite(d0))[:1]
+        fails.append({"key": "nonfinite;baseline-edge;" + ck, "msg": "baseline or its derivative is not finite on the edge lattice (first at %s, X = %s)" % (
+            bad.tolist(), X[:, :3, bad[0][-1]].tolist() if len(bad) else "-")})
+        return {"fail": fails, "evals": evals, "outcome": [ck, "nonfinite"]}
+    und = 0
+    for s_, j in itertools.product(range(nspin), range(3)):
+        x = X[s_, j]
+        est = []
+        for rel in (2e-3, 1e-3):
+            # steps of rel * max(x, 1e-6): large enough for the energy difference to rise above rounding, small enough
+            # (<= 2e-9 near zero) to stay inside a small-argument branch; one-sided where x - h would leave the domain
+            h = rel * np.maximum(x, 1e-6)
+            one_sided = h > 0.5 * x
+            Xp, Xm, X2 = X.copy(), X.copy(), X.copy()
+            Xp[s_, j] = x + h
+            Xm[s_, j] = np.where(one_sided, x, x - h)
+            X2[s_, j] = x + 2 * h
+            ep, em, e2 = (np.asarray(fn(A)[0], float) for A in (Xp, Xm, X2))
+            evals += 3
+            central = (ep - em) / (2 * h)
+            forward = (-3 * em + 4 * ep - e2) / (2 * h)  # em == e(x) on the one-sided points
+            est.append(np.where(one_sided, forward, central))
+        num = (4 * est[1] - est[0]) / 3
+        wit = np.abs(est[1] - est[0])
+        got = d0[s_, j] if d0.ndim == 3 else d0[j]
+        scale = 1 + np.abs(num)
+        smooth = wit <= 1e-4 * scale
+        und += int((~smooth).sum())
+        err = np.where(smooth, np.abs(got - num) / scale, 0.0)
+        if err.max() > 2e-4:
+            k = int(np.argmax(err))
+            fails.append({"key": "baseline-derivative;%s;feature=%d" % (ck, j),
+                          "msg": "d e / d X[spin %d, feature %d] = %.8g numerically but %.8g returned at (rho, s2, alpha) = %s" % (s_, j, num[k], got[k], X[s_, :3, k].tolist())})
+    return {"fail": fails, "evals": evals, "undecided": und, "outcome": [ck, float("%.8e" % np.abs(e0).sum())], "info": {"undecided_points": und, "points": n}}
+
+
 def run_case(case):
+    if case["kind"] == "baseline-edge":
+        return run_baseline_edge(case)
     if case["kind"] == "native":
         return run_native(case)
     if case["kind"] == "libxc":
